@@ -6,11 +6,33 @@
 //! function and constant must later observe the value implied by the graph.
 //! Graphs with an injected cycle or a context read must be rejected before any
 //! `init` event is logged.
+//!
+//! The graph is a DAG of constants and functions whose strongly connected
+//! components are single constants, single functions or *recursive function
+//! groups* (self-recursive functions, mutually recursive pairs and triples with a
+//! decreasing depth parameter). Every node carries one i64; it travels through a
+//! randomly chosen *value shape* (String, List, named / generic / anonymous records,
+//! enums with payloads, Option, lists of those, nestings) with explicit copies,
+//! comparisons and drops on the way. The shapes only route the i64 through
+//! aggregate copies, so the value model is the plain integer model. Identifier
+//! spellings, module names and module placement are random per case; the record and
+//! enum types are declared in random modules at random places (also after their uses).
+//!
+//! Injected defects: a cycle (self, mutual, through new functions / recursive groups,
+//! or through a function the constant already reaches) or a context read (direct or at
+//! the end of such a route; a group is entered through any member and left from any
+//! member or from a helper that only one member calls). A graph with a defect is first
+//! only parsed and type checked (the stages of `compile` that can reject): if they accept
+//! it the violation is reported without generating code, because that would evaluate the
+//! constant without a context / before itself and kill the worker.
+//! Valid graphs may contain context reads in functions that no constant reaches.
+//!
+//! `--probe FILE` compiles a hand-written program with the family's runtime (see `probe`).
 
 use std::cell::RefCell;
 use std::collections::{BTreeMap, BTreeSet};
 
-use roto::{Context, FileSpec, FileTree, Runtime, SourceFile, library};
+use roto::{Context, FileSpec, FileTree, RotoString, Runtime, SourceFile, library};
 
 use crate::jsonw::J;
 use crate::rng::Rng;
@@ -49,26 +71,124 @@ enum Via {
     Call,
 }
 
+/// The shape through which a node's i64 travels.
+#[derive(Clone, Debug, PartialEq, Eq, PartialOrd, Ord)]
+enum Sh {
+    I64,
+    /// the decimal text
+    Str,
+    /// `List[i64]`, the value is element 1
+    ListI,
+    /// named record `{ tag: String, n: i64 }` (type instance)
+    Rec(usize),
+    /// generic record `N[T] { label: String, item: T }`
+    Gen(usize, Box<Sh>),
+    /// anonymous record `{ s: String, v: T }`
+    Anon(Box<Sh>),
+    /// enum with payloads `Txt(String) | Lst(List[i64]) | Num(i64) | Nil`
+    En(usize),
+    /// generic enum `One(T) | Two(String, T) | Zero`
+    GEn(usize, Box<Sh>),
+    Opt(Box<Sh>),
+    /// `List[T]`, the value is element 0
+    ListOf(Box<Sh>),
+    /// named record holding a named record of another declaration: `{ inner: Rec, rest: List[String] }`
+    Outer(usize),
+}
+
+impl Sh {
+    fn kind(&self) -> &'static str {
+        match self {
+            Sh::I64 => "i64",
+            Sh::Str => "string",
+            Sh::ListI => "list-i64",
+            Sh::Rec(_) => "record",
+            Sh::Gen(..) => "generic-record",
+            Sh::Anon(_) => "anon-record",
+            Sh::En(_) => "enum",
+            Sh::GEn(..) => "generic-enum",
+            Sh::Opt(_) => "option",
+            Sh::ListOf(_) => "list-of",
+            Sh::Outer(_) => "nested-record",
+        }
+    }
+    fn inner(&self) -> Option<&Sh> {
+        match self {
+            Sh::Gen(_, i) | Sh::GEn(_, i) | Sh::Anon(i) | Sh::Opt(i) | Sh::ListOf(i) => Some(i),
+            _ => None,
+        }
+    }
+    /// has a field that can be read with `.` directly off the value
+    fn has_field(&self) -> bool {
+        matches!(self, Sh::Rec(_) | Sh::Gen(..) | Sh::Anon(_) | Sh::Outer(_))
+    }
+}
+
+#[derive(Clone, Copy, Debug, PartialEq)]
+enum TyKind {
+    Rec,
+    Gen,
+    En,
+    GEn,
+    /// holds the record type instance with this index
+    Outer(usize),
+}
+
 #[derive(Clone, Debug)]
-enum Node {
-    Const { deps: Vec<(usize, Via)> },
-    Func { deps: Vec<usize> },
+struct TypeDecl {
+    kind: TyKind,
+    name: String,
+    module: usize,
+}
+
+#[derive(Clone, Copy, Debug, PartialEq, Eq, PartialOrd, Ord)]
+enum Item {
+    Node(usize),
+    Type(usize),
+    Helper(usize),
+}
+
+#[derive(Clone, Debug)]
+struct Dep {
+    to: usize,
+    via: Via,
+    /// depth argument if `to` is a member of a recursive group
+    depth: i64,
+}
+
+#[derive(Clone, Debug)]
+struct Node {
+    is_const: bool,
+    deps: Vec<Dep>,
+    /// members of the own recursive group that are called with `d - 1`
+    calls: Vec<usize>,
+    /// recursive group (functions only); members take a depth parameter
+    group: Option<usize>,
+    sh: Sh,
+    name: String,
+    module: usize,
+    /// the injected context read sits here
+    ctx_read: bool,
+    /// depth with which the getter calls a group member
+    getter_depth: i64,
 }
 
 #[derive(Clone, Debug)]
 struct Graph {
     nodes: Vec<Node>,
-    /// module index of each node (0 = pkg)
-    module: Vec<usize>,
-    n_modules: usize,
-    /// textual order of items inside each module
+    mod_names: Vec<String>,
+    /// textual order of the nodes
     order: Vec<usize>,
+    types: Vec<TypeDecl>,
     /// injected defect
     defect: Option<String>,
     /// import style per module: use `import` for foreign names instead of paths
     use_imports: bool,
     /// syntactic position of the injected context read (index into CTX_FORMS)
     ctx_form: usize,
+    n_groups: usize,
+    used_names: BTreeSet<String>,
+    tags: BTreeSet<String>,
 }
 
 /// Ways a context variable can be read (all are reads of `cv`, an i64).
@@ -82,66 +202,198 @@ const CTX_FORMS: [(&str, &str); 7] = [
     ("match-scrutinee", "(match Some(cv) { Some(x) => x, None => 0 })"),
 ];
 
-const MODS: [&str; 4] = ["pkg", "ma", "mb", "mc"];
+/// What the forms evaluate to when `cv` is 5 (the value the harness passes).
+const CTX_VALUES: [i64; 7] = [5, 1, 5, 2, 5, -5, 5];
 
-impl Graph {
-    fn name(&self, i: usize) -> String {
-        match self.nodes[i] {
-            Node::Const { .. } => format!("K{i}"),
-            Node::Func { .. } => format!("f{i}"),
-        }
-    }
+const WORDS: [&str; 40] = [
+    "parity", "limit", "base", "total", "seven_is_odd", "label", "count", "alpha", "beta", "gamma", "delta", "omega", "route", "peer",
+    "origin", "weight", "score", "index", "head", "tail", "left", "right", "upper", "lower", "first", "last", "size", "depth", "width",
+    "check", "even", "odd", "step", "next", "prev", "mark", "flag", "rank", "cost", "hop",
+];
 
-    /// how node `i` is referred to from module `from`
-    fn reference(&self, i: usize, from: usize) -> String {
-        let m = self.module[i];
-        if m == from || self.use_imports {
-            self.name(i)
-        } else if m == 0 {
-            format!("pkg.{}", self.name(i))
-        } else if from == 0 {
-            format!("{}.{}", MODS[m], self.name(i))
-        } else {
-            format!("super.{}.{}", MODS[m], self.name(i))
-        }
-    }
+/// spellings that must not be produced (keywords, names of the runtime, names the generator uses itself)
+const RESERVED: [&str; 60] = [
+    "accept", "const", "dep", "else", "enum", "filter", "filtermap", "for", "fn", "if", "import", "in", "let", "match", "pkg", "record",
+    "reject", "return", "std", "super", "test", "while", "true", "false", "not", "init", "cv", "n_to_i64", "n_of", "s_to_i64", "some",
+    "none", "option", "string", "list", "result", "ok", "err", "verdict", "bool", "char", "unit", "txt", "lst", "num", "nil", "one", "two",
+    "zero", "acc", "tag", "label", "item", "inner", "rest", "keep", "note", "asn", "prefix", "ipaddr",
+];
 
-    fn value(&self, i: usize, memo: &mut BTreeMap<usize, i64>) -> i64 {
-        if let Some(v) = memo.get(&i) {
-            return *v;
-        }
-        let v = match &self.nodes[i] {
-            Node::Const { deps } => {
-                let mut v = (i as i64 + 1) * 1000;
-                for (d, via) in deps {
-                    let dv = self.value(*d, memo);
-                    v = v.wrapping_add(match via {
-                        Via::Method => dv.to_string().len() as i64,
-                        _ => dv,
-                    });
+#[derive(Clone, Copy, PartialEq)]
+enum Style {
+    Upper,
+    Lower,
+    Pascal,
+}
+
+fn fresh_name(rng: &mut Rng, used: &mut BTreeSet<String>, style: Style) -> String {
+    const LETTERS: &[u8] = b"abcdefghijklmnopqrstuvwxyz";
+    const ALNUM: &[u8] = b"abcdefghijklmnopqrstuvwxyz0123456789_";
+    for attempt in 0..200 {
+        let mut s = String::new();
+        match rng.below(4) {
+            0 => {
+                s.push_str(*rng.pick(&WORDS[..]));
+                if rng.bool() {
+                    s.push_str(&rng.below(100).to_string());
                 }
-                v
             }
-            Node::Func { deps } => {
-                let mut v = 7i64;
-                for d in deps {
-                    v = v.wrapping_add(self.value(*d, memo));
+            1 | 2 => {
+                s.push_str(*rng.pick(&WORDS[..]));
+                s.push('_');
+                for _ in 0..1 + rng.usize(4) {
+                    s.push(*rng.pick(ALNUM) as char);
                 }
-                v
+            }
+            _ => {
+                for _ in 0..3 + rng.usize(5) {
+                    s.push(*rng.pick(LETTERS) as char);
+                }
+                // always with digits: no name of the runtime is spelled like that
+                s.push_str(&rng.below(1000).to_string());
+            }
+        }
+        if attempt > 100 {
+            s.push_str(&format!("_{}", used.len()));
+        }
+        let key = s.to_ascii_lowercase();
+        let local_like = key.starts_with('v') && key[1..].chars().all(|c| c.is_ascii_digit());
+        if RESERVED.contains(&key.as_str()) || key.starts_with("get") || local_like || used.contains(&key) {
+            continue;
+        }
+        used.insert(key);
+        return match style {
+            Style::Lower => s,
+            Style::Upper => s.to_ascii_uppercase(),
+            Style::Pascal => {
+                let mut c = s.chars();
+                let f = c.next().unwrap().to_ascii_uppercase();
+                format!("{f}{}", c.as_str())
             }
         };
-        memo.insert(i, v);
+    }
+    unreachable!("no fresh name")
+}
+
+/// A random non-trivial shape over the case's type pool.
+fn gen_shape(rng: &mut Rng, types: &[TypeDecl], depth: usize) -> Sh {
+    let of = |rng: &mut Rng, k: fn(&TyKind) -> bool| -> usize {
+        let c: Vec<usize> = (0..types.len()).filter(|t| k(&types[*t].kind)).collect();
+        c[rng.usize(c.len())]
+    };
+    let inner = |rng: &mut Rng| -> Box<Sh> {
+        Box::new(if depth >= 2 || rng.chance(1, 3) {
+            match rng.below(7) {
+                0 => Sh::I64,
+                1 => Sh::Str,
+                2 => Sh::ListI,
+                3 | 4 => Sh::Rec(of(rng, |k| matches!(k, TyKind::Rec))),
+                5 => Sh::En(of(rng, |k| matches!(k, TyKind::En))),
+                _ => Sh::Outer(of(rng, |k| matches!(k, TyKind::Outer(_)))),
+            }
+        } else {
+            gen_shape(rng, types, depth + 1)
+        })
+    };
+    match rng.weighted(&[2, 2, 5, 3, 3, 4, 3, 4, 3, 2]) {
+        0 => Sh::Str,
+        1 => Sh::ListI,
+        2 => Sh::Rec(of(rng, |k| matches!(k, TyKind::Rec))),
+        3 => Sh::Gen(of(rng, |k| matches!(k, TyKind::Gen)), inner(rng)),
+        4 => Sh::Anon(inner(rng)),
+        5 => Sh::En(of(rng, |k| matches!(k, TyKind::En))),
+        6 => Sh::GEn(of(rng, |k| matches!(k, TyKind::GEn)), inner(rng)),
+        7 => Sh::Opt(inner(rng)),
+        8 => Sh::ListOf(inner(rng)),
+        _ => Sh::Outer(of(rng, |k| matches!(k, TyKind::Outer(_)))),
+    }
+}
+
+fn node_shape(rng: &mut Rng, types: &[TypeDecl]) -> Sh {
+    if rng.chance(11, 20) { Sh::I64 } else { gen_shape(rng, types, 0) }
+}
+
+impl Graph {
+    fn n_modules(&self) -> usize {
+        self.mod_names.len()
+    }
+
+    fn is_func(&self, i: usize) -> bool {
+        !self.nodes[i].is_const
+    }
+
+    /// value of node `i` (called with depth `d` if it is a group member)
+    fn value(&self, i: usize, d: i64, memo: &mut BTreeMap<(usize, i64), i64>) -> i64 {
+        let n = &self.nodes[i];
+        let d = if n.group.is_some() { d.max(0) } else { 0 };
+        if let Some(v) = memo.get(&(i, d)) {
+            return *v;
+        }
+        let mut v = if n.is_const { (i as i64 + 1) * 1000 } else { 7 };
+        for dep in &n.deps {
+            let dv = self.value(dep.to, dep.depth, memo);
+            v = v.wrapping_add(match dep.via {
+                Via::Method => dv.to_string().len() as i64,
+                _ => dv,
+            });
+        }
+        if n.ctx_read {
+            v = v.wrapping_add(CTX_VALUES[self.ctx_form]);
+        }
+        if n.group.is_some() && d > 0 {
+            v = v.wrapping_add(3);
+            for m in &n.calls {
+                v = v.wrapping_add(self.value(*m, d - 1, memo));
+            }
+        }
+        memo.insert((i, d), v);
         v
+    }
+
+    /// number of function invocations that evaluating a mention of node `i` costs
+    fn cost(&self, i: usize, d: i64, memo: &mut BTreeMap<(usize, i64), u64>) -> u64 {
+        let n = &self.nodes[i];
+        if n.is_const {
+            return 0;
+        }
+        let d = if n.group.is_some() { d.max(0) } else { 0 };
+        if let Some(v) = memo.get(&(i, d)) {
+            return *v;
+        }
+        let mut c = 1u64;
+        for dep in &n.deps {
+            c = c.saturating_add(self.cost(dep.to, dep.depth, memo));
+        }
+        if n.group.is_some() && d > 0 {
+            for m in &n.calls {
+                c = c.saturating_add(self.cost(*m, d - 1, memo));
+            }
+        }
+        memo.insert((i, d), c);
+        c
+    }
+
+    fn total_cost(&self) -> u64 {
+        let mut memo = BTreeMap::new();
+        let mut c = 0u64;
+        for (i, n) in self.nodes.iter().enumerate() {
+            if n.is_const {
+                for dep in &n.deps {
+                    c = c.saturating_add(self.cost(dep.to, dep.depth, &mut memo));
+                }
+            } else {
+                c = c.saturating_add(self.cost(i, n.getter_depth, &mut memo).saturating_mul(2));
+            }
+        }
+        c
     }
 
     /// all constants that must have been evaluated before constant `i`
     fn const_deps(&self, i: usize, seen: &mut BTreeSet<usize>, out: &mut BTreeSet<usize>) {
-        let deps: Vec<usize> = match &self.nodes[i] {
-            Node::Const { deps } => deps.iter().map(|d| d.0).collect(),
-            Node::Func { deps } => deps.clone(),
-        };
+        let n = &self.nodes[i];
+        let deps: Vec<usize> = n.deps.iter().map(|d| d.to).chain(n.calls.iter().copied()).collect();
         for d in deps {
-            if matches!(self.nodes[d], Node::Const { .. }) {
+            if self.nodes[d].is_const {
                 out.insert(d);
             }
             if seen.insert(d) {
@@ -150,97 +402,61 @@ impl Graph {
         }
     }
 
-    fn item_source(&self, i: usize, ctx_read: Option<usize>) -> String {
-        let from = self.module[i];
-        match &self.nodes[i] {
-            Node::Const { deps } => {
-                let mut terms = vec![format!("init({i})")];
-                for (d, via) in deps {
-                    let r = self.reference(*d, from);
-                    let r = if matches!(self.nodes[*d], Node::Func { .. }) { format!("{r}()") } else { r };
-                    terms.push(match via {
-                        Via::Direct | Via::Call => r,
-                        Via::Block => format!("{{ let t = {r}; t }}"),
-                        Via::IfBranch => format!("(if true {{ {r} }} else {{ 0 }})"),
-                        Via::Method => format!("{{ let s = {r}.to_string(); let n: u64 = s.bytes().len(); n_to_i64(n) }}"),
-                    });
-                }
-                if ctx_read == Some(i) {
-                    terms.push(CTX_FORMS[self.ctx_form].1.to_string());
-                }
-                format!("const K{i}: i64 = {};\n", terms.join(" + "))
-            }
-            Node::Func { deps } => {
-                let mut terms = vec!["7".to_string()];
-                for d in deps {
-                    let r = self.reference(*d, from);
-                    terms.push(if matches!(self.nodes[*d], Node::Func { .. }) { format!("{r}()") } else { r });
-                }
-                if ctx_read == Some(i) {
-                    terms.push(CTX_FORMS[self.ctx_form].1.to_string());
-                }
-                format!("fn f{i}() -> i64 {{\n    {}\n}}\n", terms.join(" + "))
-            }
-        }
+    fn add_node(&mut self, rng: &mut Rng, is_const: bool, plain_shape: bool) -> usize {
+        let name = fresh_name(rng, &mut self.used_names, if is_const { Style::Upper } else { Style::Lower });
+        let sh = if plain_shape { Sh::I64 } else { node_shape(rng, &self.types) };
+        let module = rng.usize(self.n_modules());
+        self.nodes.push(Node { is_const, deps: vec![], calls: vec![], group: None, sh, name, module, ctx_read: false, getter_depth: rng.range(0, 3) });
+        let i = self.nodes.len() - 1;
+        let pos = rng.usize(self.order.len() + 1);
+        self.order.insert(pos, i);
+        i
     }
 
-    fn sources(&self, ctx_read: Option<usize>) -> Vec<(String, String)> {
-        let mut files: Vec<(String, String)> = (0..self.n_modules).map(|m| (MODS[m].to_string(), String::new())).collect();
-        for m in 0..self.n_modules {
-            let mut s = String::new();
-            if self.use_imports {
-                // import every foreign name that items of this module mention
-                let mut needed = BTreeSet::new();
-                for i in 0..self.nodes.len() {
-                    if self.module[i] != m {
-                        continue;
-                    }
-                    let deps: Vec<usize> = match &self.nodes[i] {
-                        Node::Const { deps } => deps.iter().map(|d| d.0).collect(),
-                        Node::Func { deps } => deps.clone(),
-                    };
-                    for d in deps {
-                        if self.module[d] != m {
-                            needed.insert(d);
-                        }
-                    }
-                }
-                for d in needed {
-                    let dm = self.module[d];
-                    let path = if dm == 0 { format!("pkg.{}", self.name(d)) } else { format!("pkg.{}.{}", MODS[dm], self.name(d)) };
-                    s.push_str(&format!("import {path};\n"));
+    /// Make a recursive group out of the function nodes `members`: a ring through all of them
+    /// (a self call for a single one) plus some extra calls inside the group.
+    fn connect_group(&mut self, rng: &mut Rng, members: &[usize]) -> usize {
+        let gid = self.n_groups;
+        self.n_groups += 1;
+        let mut ring = members.to_vec();
+        rng.shuffle(&mut ring);
+        for (p, &m) in ring.iter().enumerate() {
+            let next = ring[(p + 1) % ring.len()];
+            let mut calls = vec![next];
+            if rng.chance(1, 3) {
+                let extra = *rng.pick(members);
+                if !calls.contains(&extra) {
+                    calls.push(extra);
                 }
             }
-            files[m].1 = s;
+            self.nodes[m].group = Some(gid);
+            self.nodes[m].calls = calls;
         }
-        for &i in &self.order {
-            let m = self.module[i];
-            files[m].1.push_str(&self.item_source(i, ctx_read));
-        }
-        // getters for every constant and function, in pkg
-        let mut getters = String::new();
-        for i in 0..self.nodes.len() {
-            let r = self.reference_from_pkg(i);
-            let call = if matches!(self.nodes[i], Node::Func { .. }) { format!("{r}()") } else { r };
-            getters.push_str(&format!("fn get{i}() -> i64 {{\n    {call}\n}}\n"));
-        }
-        files[0].1.push_str(&getters);
-        files
-    }
-
-    fn reference_from_pkg(&self, i: usize) -> String {
-        let m = self.module[i];
-        if m == 0 { self.name(i) } else { format!("{}.{}", MODS[m], self.name(i)) }
+        gid
     }
 }
 
 fn gen_graph(rng: &mut Rng) -> Graph {
+    let mut used_names: BTreeSet<String> = BTreeSet::new();
+    let n_modules = 1 + rng.usize(4);
+    let mut mod_names = vec!["pkg".to_string()];
+    for _ in 1..n_modules {
+        mod_names.push(fresh_name(rng, &mut used_names, Style::Lower));
+    }
+    // the pool of type declarations of this case (only the used ones are printed)
+    let mut types = Vec::new();
+    for kind in [TyKind::Rec, TyKind::Rec, TyKind::Gen, TyKind::Gen, TyKind::En, TyKind::En, TyKind::GEn, TyKind::Outer(0), TyKind::Outer(1)] {
+        types.push(TypeDecl { kind, name: fresh_name(rng, &mut used_names, Style::Pascal), module: rng.usize(n_modules) });
+    }
+
     let n_const = 2 + rng.usize(11);
     let n_func = rng.usize(9);
     let n = n_const + n_func;
-    // a random topological numbering: node i may only depend on nodes < i in `topo`
+    // a random topological numbering: node i may only depend on nodes < i
     let mut kinds: Vec<bool> = (0..n).map(|i| i < n_const).collect();
     rng.shuffle(&mut kinds);
+    // with shapes: all nodes, about half of them, or none
+    let shape_mode = [0, 0, 1, 2, 2, 2, 2, 2][rng.usize(8)];
     let mut nodes = Vec::new();
     for i in 0..n {
         let max_deps = if i == 0 { 0 } else { rng.usize(4) };
@@ -248,40 +464,199 @@ fn gen_graph(rng: &mut Rng) -> Graph {
         for _ in 0..max_deps {
             deps.insert(rng.usize(i));
         }
-        if kinds[i] {
-            let deps = deps
-                .into_iter()
-                .map(|d| {
-                    let via = if !kinds[d] {
-                        Via::Call
-                    } else {
-                        *rng.pick(&[Via::Direct, Via::Direct, Via::Block, Via::IfBranch, Via::Method])
-                    };
-                    (d, via)
-                })
-                .collect();
-            nodes.push(Node::Const { deps });
-        } else {
-            nodes.push(Node::Func { deps: deps.into_iter().collect() });
-        }
+        let deps = deps
+            .into_iter()
+            .map(|d| {
+                let via = if !kinds[d] || !kinds[i] {
+                    Via::Call
+                } else {
+                    *rng.pick(&[Via::Direct, Via::Direct, Via::Block, Via::IfBranch, Via::Method])
+                };
+                Dep { to: d, via, depth: 0 }
+            })
+            .collect();
+        let sh = match shape_mode {
+            0 => Sh::I64,
+            1 => gen_shape(rng, &types, 0),
+            _ => node_shape(rng, &types),
+        };
+        let name = fresh_name(rng, &mut used_names, if kinds[i] { Style::Upper } else { Style::Lower });
+        nodes.push(Node {
+            is_const: kinds[i],
+            deps,
+            calls: vec![],
+            group: None,
+            sh,
+            name,
+            module: rng.usize(n_modules),
+            ctx_read: false,
+            getter_depth: rng.range(0, 3),
+        });
     }
-    let n_modules = 1 + rng.usize(4);
-    let module = (0..n).map(|_| rng.usize(n_modules)).collect();
     let mut order: Vec<usize> = (0..n).collect();
     rng.shuffle(&mut order);
-    Graph { nodes, module, n_modules, order, defect: None, use_imports: rng.bool(), ctx_form: 0 }
+    let mut g = Graph {
+        nodes,
+        mod_names,
+        order,
+        types,
+        defect: None,
+        use_imports: rng.bool(),
+        ctx_form: 0,
+        n_groups: 0,
+        used_names,
+        tags: BTreeSet::new(),
+    };
+
+    // turn some functions into recursive groups: the further members get their own
+    // dependencies among the nodes below the first member, so that the group stays one
+    // strongly connected component made of functions only
+    let funcs: Vec<usize> = (0..n).filter(|i| !kinds[*i]).collect();
+    for &f in &funcs {
+        if g.n_groups >= 2 || !rng.chance(1, 4) {
+            continue;
+        }
+        let size = 1 + rng.usize(3);
+        let mut members = vec![f];
+        for _ in 1..size {
+            let m = g.add_node(rng, false, shape_mode == 0);
+            if shape_mode == 1 {
+                g.nodes[m].sh = gen_shape(rng, &g.types, 0);
+            }
+            for _ in 0..rng.usize(3) {
+                if f > 0 {
+                    let d = rng.usize(f);
+                    if !g.nodes[m].deps.iter().any(|x| x.to == d) {
+                        g.nodes[m].deps.push(Dep { to: d, via: Via::Call, depth: 0 });
+                    }
+                }
+            }
+            members.push(m);
+        }
+        g.connect_group(rng, &members);
+        g.tags.insert(format!("rec-group:size-{size}"));
+        // whoever mentioned the first member now enters the group through any member
+        for j in 0..g.nodes.len() {
+            if members.contains(&j) {
+                continue;
+            }
+            for dep in g.nodes[j].deps.iter_mut() {
+                if dep.to == f {
+                    dep.to = *rng.pick(&members);
+                }
+            }
+        }
+    }
+    // depth arguments for mentions of group members
+    for j in 0..g.nodes.len() {
+        for k in 0..g.nodes[j].deps.len() {
+            let to = g.nodes[j].deps[k].to;
+            if g.nodes[to].group.is_some() {
+                g.nodes[j].deps[k].depth = rng.range(0, 3);
+            }
+        }
+    }
+    // keep the number of function invocations bounded: if the product of the recursion
+    // trees gets large, every group is only entered at depth 0 (still recursive statically)
+    if g.total_cost() > 100_000 {
+        for n in g.nodes.iter_mut() {
+            n.getter_depth = 0;
+            for d in n.deps.iter_mut() {
+                d.depth = 0;
+            }
+        }
+        g.tags.insert("rec-depth:clamped".into());
+    }
+    g
+}
+
+/// What the end of an injected route carries.
+#[derive(Clone, Copy)]
+enum Payload {
+    Context,
+    BackEdge(usize),
+}
+
+/// Inject a route from constant `a` through one or two hops - plain functions or recursive
+/// groups (entered through any member; the way out is in any member or in a helper that
+/// only one member calls) - to the payload. Returns (all hops are plain functions, number of hops).
+fn inject_route(g: &mut Graph, rng: &mut Rng, a: usize, payload: Payload, force_plain: bool) -> (bool, usize) {
+    let hops = 1 + rng.usize(2);
+    let mut carrier = a;
+    let mut all_plain = true;
+    let mut desc = Vec::new();
+    for _ in 0..hops {
+        if force_plain || rng.chance(2, 5) {
+            let f = { let plain = rng.bool(); g.add_node(rng, false, plain) };
+            g.nodes[carrier].deps.push(Dep { to: f, via: Via::Call, depth: 0 });
+            carrier = f;
+            desc.push("f".to_string());
+        } else {
+            all_plain = false;
+            let size = 1 + rng.weighted(&[2, 3, 3]);
+            let members: Vec<usize> = (0..size).map(|_| { let plain = rng.bool(); g.add_node(rng, false, plain) }).collect();
+            g.connect_group(rng, &members);
+            let entry = *rng.pick(&members);
+            g.nodes[carrier].deps.push(Dep { to: entry, via: Via::Call, depth: rng.range(0, 3) });
+            // the way out: in any member (the entry or, more often, another one) ...
+            let mut out = *rng.pick(&members);
+            if out == entry && rng.bool() {
+                out = *rng.pick(&members);
+            }
+            // ... or in a helper that only this member calls
+            let helper = rng.chance(3, 5);
+            carrier = if helper {
+                let h = { let plain = rng.bool(); g.add_node(rng, false, plain) };
+                g.nodes[out].deps.push(Dep { to: h, via: Via::Call, depth: 0 });
+                h
+            } else {
+                out
+            };
+            desc.push(format!("g{size}{}", if helper { "h" } else { "" }));
+            g.tags.insert(format!("inj-group:size-{size}"));
+            g.tags.insert(format!("inj-group:exit-in-{}", if helper { "helper" } else { "member" }));
+            g.tags.insert(format!("inj-group:entry-{}", if entry == out { "is-exit-member" } else { "other-member" }));
+        }
+    }
+    match payload {
+        Payload::Context => g.nodes[carrier].ctx_read = true,
+        Payload::BackEdge(to) => g.nodes[carrier].deps.push(Dep { to, via: Via::Direct, depth: 0 }),
+    }
+    for d in &desc {
+        g.tags.insert(format!("inj-hop:{d}"));
+    }
+    g.tags.insert(format!("inj-hops:{}", desc.len()));
+    (all_plain, hops)
+}
+
+/// Put the payload into a function of the graph as generated that constant `a` already
+/// reaches (directly, through other constants, functions or recursive groups). Returns
+/// false if it reaches none.
+fn inject_into_reached(g: &mut Graph, rng: &mut Rng, a: usize, payload: Payload) -> bool {
+    let mut seen = BTreeSet::new();
+    g.const_deps(a, &mut seen, &mut BTreeSet::new());
+    let funcs: Vec<usize> = seen.into_iter().filter(|i| g.is_func(*i)).collect();
+    if funcs.is_empty() {
+        return false;
+    }
+    let f = *rng.pick(&funcs);
+    match payload {
+        Payload::Context => g.nodes[f].ctx_read = true,
+        Payload::BackEdge(to) => g.nodes[f].deps.push(Dep { to, via: Via::Direct, depth: 0 }),
+    }
+    g.tags.insert(format!("inj-reached:{}", if g.nodes[f].group.is_some() { "group-member" } else { "function" }));
+    true
 }
 
 /// Inject a cycle: returns a description, modifies the graph.
 fn inject_cycle(g: &mut Graph, rng: &mut Rng) -> String {
-    let consts: Vec<usize> = (0..g.nodes.len()).filter(|i| matches!(g.nodes[*i], Node::Const { .. })).collect();
+    let consts: Vec<usize> = (0..g.nodes.len()).filter(|i| g.nodes[*i].is_const).collect();
     let a = consts[rng.usize(consts.len())];
-    match rng.below(3) {
+    match rng.below(6) {
+        5 if inject_into_reached(g, rng, a, Payload::BackEdge(a)) => "cycle:through-reached-function".into(),
         0 => {
             // self reference
-            if let Node::Const { deps } = &mut g.nodes[a] {
-                deps.push((a, Via::Direct));
-            }
+            g.nodes[a].deps.push(Dep { to: a, via: Via::Direct, depth: 0 });
             "cycle:self".into()
         }
         1 if consts.len() >= 2 => {
@@ -291,38 +666,641 @@ fn inject_cycle(g: &mut Graph, rng: &mut Rng) -> String {
                 b = *consts.iter().find(|c| **c != a).unwrap();
             }
             let (lo, hi) = (a.min(b), a.max(b));
-            if let Node::Const { deps } = &mut g.nodes[hi]
-                && !deps.iter().any(|d| d.0 == lo)
-            {
-                deps.push((lo, Via::Direct));
+            if !g.nodes[hi].deps.iter().any(|d| d.to == lo) {
+                g.nodes[hi].deps.push(Dep { to: lo, via: Via::Direct, depth: 0 });
             }
-            if let Node::Const { deps } = &mut g.nodes[lo] {
-                deps.push((hi, Via::Block));
-            }
+            g.nodes[lo].deps.push(Dep { to: hi, via: Via::Block, depth: 0 });
             "cycle:mutual".into()
         }
-        _ => {
-            // through a chain of one or two new functions
-            let f1 = g.nodes.len();
-            let two = rng.bool();
-            if two {
-                g.nodes.push(Node::Func { deps: vec![f1 + 1] });
-                g.nodes.push(Node::Func { deps: vec![a] });
-            } else {
-                g.nodes.push(Node::Func { deps: vec![a] });
-            }
-            let added = if two { 2 } else { 1 };
-            for j in 0..added {
-                g.module.push(rng.usize(g.n_modules));
-                let pos = rng.usize(g.order.len() + 1);
-                g.order.insert(pos, f1 + j);
-            }
-            if let Node::Const { deps } = &mut g.nodes[a] {
-                deps.push((f1, Via::Call));
-            }
-            "cycle:through-function".into()
+        k => {
+            // back to the constant through functions and recursive groups
+            let (plain, _) = inject_route(g, rng, a, Payload::BackEdge(a), k == 2);
+            if plain { "cycle:through-function".into() } else { "cycle:through-group".into() }
         }
     }
+}
+
+#[derive(Clone, Copy, Debug, PartialEq, Eq, PartialOrd, Ord)]
+enum HelperKind {
+    /// `fn(T) -> i64`: takes the value by value and projects the integer out
+    Unwrap,
+    /// `fn(T) -> T`
+    Identity,
+    /// `fn(i64) -> T`
+    Make,
+}
+
+#[derive(Clone, Debug)]
+struct Helper {
+    kind: HelperKind,
+    sh: Sh,
+    name: String,
+    module: usize,
+}
+
+/// Prints the items of a graph; collects the helpers, the foreign mentions (for imports)
+/// and the type declarations that the printed text needs.
+struct Printer<'a> {
+    g: &'a Graph,
+    rng: &'a mut Rng,
+    used_names: BTreeSet<String>,
+    helpers: Vec<Helper>,
+    helper_ix: BTreeMap<(HelperKind, Sh), usize>,
+    /// (module, foreign item mentioned there)
+    mentions: BTreeSet<(usize, Item)>,
+    /// (item, type it mentions)
+    type_uses: BTreeSet<(Item, usize)>,
+    cur: Item,
+    nv: usize,
+    no_helpers: bool,
+    /// only the simplest copy form (for the getters, which are not under test)
+    plain_copies: bool,
+    tags: BTreeSet<String>,
+}
+
+impl Printer<'_> {
+    fn item_name(&self, it: Item) -> String {
+        match it {
+            Item::Node(i) => self.g.nodes[i].name.clone(),
+            Item::Type(t) => self.g.types[t].name.clone(),
+            Item::Helper(h) => self.helpers[h].name.clone(),
+        }
+    }
+
+    fn item_module(&self, it: Item) -> usize {
+        match it {
+            Item::Node(i) => self.g.nodes[i].module,
+            Item::Type(t) => self.g.types[t].module,
+            Item::Helper(h) => self.helpers[h].module,
+        }
+    }
+
+    /// how item `it` is referred to from module `from`
+    fn refer(&mut self, it: Item, from: usize) -> String {
+        if let Item::Type(t) = it {
+            self.type_uses.insert((self.cur, t));
+        }
+        let m = self.item_module(it);
+        let name = self.item_name(it);
+        if m == from {
+            return name;
+        }
+        if self.g.use_imports {
+            self.mentions.insert((from, it));
+            return name;
+        }
+        let mn = &self.g.mod_names[m];
+        if m == 0 {
+            format!("pkg.{name}")
+        } else if from == 0 {
+            if self.rng.chance(1, 4) { format!("pkg.{mn}.{name}") } else { format!("{mn}.{name}") }
+        } else if self.rng.chance(1, 3) {
+            format!("pkg.{mn}.{name}")
+        } else {
+            format!("super.{mn}.{name}")
+        }
+    }
+
+    fn var(&mut self) -> String {
+        self.nv += 1;
+        format!("v{}", self.nv)
+    }
+
+    fn word(&mut self) -> &'static str {
+        *self.rng.pick(&WORDS[..])
+    }
+
+    /// the decimal text of the i64 expression `e` (the type of a bare literal is pinned first)
+    fn text_of(&mut self, e: &str) -> String {
+        // a sum with a call of `init` or the `acc` local in it is known to be an i64
+        let typed = e.contains("init(") || e.starts_with("acc");
+        if !typed || self.rng.chance(1, 4) {
+            let v = self.var();
+            format!("{{ let {v}: i64 = {e}; {v}.to_string() }}")
+        } else {
+            format!("({e}).to_string()")
+        }
+    }
+
+    fn ty(&mut self, sh: &Sh, from: usize) -> String {
+        match sh {
+            Sh::I64 => "i64".into(),
+            Sh::Str => "String".into(),
+            Sh::ListI => "List[i64]".into(),
+            Sh::Rec(t) | Sh::En(t) | Sh::Outer(t) => self.refer(Item::Type(*t), from),
+            Sh::Gen(t, i) | Sh::GEn(t, i) => {
+                let n = self.refer(Item::Type(*t), from);
+                format!("{n}[{}]", self.ty(i, from))
+            }
+            Sh::Anon(i) => format!("{{ s: String, v: {} }}", self.ty(i, from)),
+            Sh::Opt(i) => {
+                let it = self.ty(i, from);
+                let simple = matches!(**i, Sh::I64 | Sh::Str | Sh::Rec(_) | Sh::En(_) | Sh::Outer(_));
+                if simple && self.rng.bool() { format!("{it}?") } else { format!("Option[{it}]") }
+            }
+            Sh::ListOf(i) => format!("List[{}]", self.ty(i, from)),
+        }
+    }
+
+    fn helper(&mut self, kind: HelperKind, sh: &Sh) -> usize {
+        if let Some(h) = self.helper_ix.get(&(kind, sh.clone())) {
+            return *h;
+        }
+        let name = fresh_name(self.rng, &mut self.used_names, Style::Lower);
+        let module = self.rng.usize(self.g.n_modules());
+        self.helpers.push(Helper { kind, sh: sh.clone(), name, module });
+        self.helper_ix.insert((kind, sh.clone()), self.helpers.len() - 1);
+        self.helpers.len() - 1
+    }
+
+    /// an expression of shape `sh` that carries the i64 expression `e` (evaluated once)
+    fn wrap(&mut self, sh: &Sh, e: &str, from: usize) -> String {
+        if *sh != Sh::I64 && !self.no_helpers && self.rng.chance(1, 8) {
+            let h = self.helper(HelperKind::Make, sh);
+            self.tags.insert("copy:made-by-function".into());
+            return format!("{}({e})", self.refer(Item::Helper(h), from));
+        }
+        match sh {
+            Sh::I64 => e.to_string(),
+            Sh::Str => self.text_of(e),
+            Sh::ListI => {
+                if self.rng.bool() {
+                    format!("[{}, {e}]", self.rng.below(9))
+                } else {
+                    format!("[{}, {e}, {}]", self.rng.below(9), self.rng.below(9))
+                }
+            }
+            Sh::Rec(t) => {
+                let n = self.refer(Item::Type(*t), from);
+                let w = self.word();
+                if self.rng.bool() { format!("{n} {{ tag: \"{w}\", n: {e} }}") } else { format!("{n} {{ n: {e}, tag: \"{w}\" }}") }
+            }
+            Sh::Gen(t, i) => {
+                let n = self.refer(Item::Type(*t), from);
+                let w = self.word();
+                format!("{n} {{ label: \"{w}\", item: {} }}", self.wrap(i, e, from))
+            }
+            Sh::Anon(i) => {
+                let w = self.word();
+                format!("{{ s: \"{w}\", v: {} }}", self.wrap(i, e, from))
+            }
+            Sh::En(t) => {
+                let n = self.refer(Item::Type(*t), from);
+                match self.rng.below(3) {
+                    0 => format!("{n}.Num({e})"),
+                    1 => format!("{n}.Txt({})", self.text_of(e)),
+                    _ => format!("{n}.Lst([{}, {e}])", self.rng.below(9)),
+                }
+            }
+            Sh::GEn(t, i) => {
+                let n = self.refer(Item::Type(*t), from);
+                let w = self.wrap(i, e, from);
+                if self.rng.bool() { format!("{n}.One({w})") } else { format!("{n}.Two(\"{}\", {w})", self.word()) }
+            }
+            Sh::Opt(i) => format!("Some({})", self.wrap(i, e, from)),
+            Sh::ListOf(i) => {
+                let w = self.wrap(i, e, from);
+                if self.rng.chance(1, 3) {
+                    let junk = self.wrap(i, "0", from);
+                    format!("[{w}, {junk}]")
+                } else {
+                    format!("[{w}]")
+                }
+            }
+            Sh::Outer(t) => {
+                let n = self.refer(Item::Type(*t), from);
+                let TyKind::Outer(r) = self.g.types[*t].kind else { unreachable!() };
+                let rn = self.refer(Item::Type(r), from);
+                format!("{n} {{ inner: {rn} {{ tag: \"{}\", n: {e} }}, rest: [\"{}\"] }}", self.word(), self.word())
+            }
+        }
+    }
+
+    /// the i64 inside the value at `place` (a local variable or a field path of one)
+    fn proj(&mut self, sh: &Sh, place: &str, from: usize) -> String {
+        match sh {
+            Sh::I64 => place.to_string(),
+            Sh::Str => format!("s_to_i64({place})"),
+            Sh::ListI => {
+                let v = self.var();
+                format!("(match {place}.get(1) {{ Some({v}) => {v}, None => 0 - 903 }})")
+            }
+            Sh::Rec(_) => format!("{place}.n"),
+            Sh::Outer(_) => format!("{place}.inner.n"),
+            Sh::Gen(_, i) => self.sub(i, &format!("{place}.item"), from),
+            Sh::Anon(i) => self.sub(i, &format!("{place}.v"), from),
+            Sh::En(_) => {
+                let (a, b, c, d) = (self.var(), self.var(), self.var(), self.var());
+                format!(
+                    "(match {place} {{ Txt({a}) => s_to_i64({a}), Lst({b}) => (match {b}.get(1) {{ Some({d}) => {d}, None => 0 - 908 }}), Num({c}) => {c}, Nil => 0 - 904 }})"
+                )
+            }
+            Sh::GEn(_, i) => {
+                let (a, b, c) = (self.var(), self.var(), self.var());
+                let pa = self.sub(i, &a, from);
+                let pc = self.sub(i, &c, from);
+                format!("(match {place} {{ One({a}) => {pa}, Two({b}, {c}) => {pc}, Zero => 0 - 905 }})")
+            }
+            Sh::Opt(i) => {
+                let a = self.var();
+                let pa = self.sub(i, &a, from);
+                format!("(match {place} {{ Some({a}) => {pa}, None => 0 - 906 }})")
+            }
+            Sh::ListOf(i) => {
+                let a = self.var();
+                let pa = self.sub(i, &a, from);
+                format!("(match {place}.get(0) {{ Some({a}) => {pa}, None => 0 - 907 }})")
+            }
+        }
+    }
+
+    fn sub(&mut self, sh: &Sh, place: &str, from: usize) -> String {
+        if *sh != Sh::I64 && self.rng.chance(1, 3) { self.unwrap(sh, place, from, false) } else { self.proj(sh, place, from) }
+    }
+
+    /// the i64 inside the expression `x` of shape `sh`, with a randomly chosen way of
+    /// copying the aggregate on the way (`x` is evaluated exactly once)
+    fn unwrap(&mut self, sh: &Sh, x: &str, from: usize, x_is_const: bool) -> String {
+        if *sh == Sh::I64 {
+            return x.to_string();
+        }
+        let mut w = [5u32, 4, 4, 3, 2, 3, 3, 2, 0, 2];
+        if self.no_helpers {
+            w[3] = 0;
+            w[4] = 0;
+        }
+        if x_is_const && sh.has_field() {
+            w[8] = 4;
+        }
+        if self.plain_copies {
+            w = [1, 0, 0, 0, 0, 0, 0, 0, 0, 0];
+        }
+        let v1 = self.var();
+        match self.rng.weighted(&w) {
+            0 => {
+                self.tags.insert("copy:let".into());
+                format!("{{ let {v1} = {x}; {} }}", self.proj(sh, &v1, from))
+            }
+            1 => {
+                self.tags.insert("copy:let-let".into());
+                let v2 = self.var();
+                format!("{{ let {v1} = {x}; let {v2} = {v1}; {} }}", self.proj(sh, &v2, from))
+            }
+            2 => {
+                self.tags.insert(format!("compare:{}", sh.kind()));
+                let v2 = self.var();
+                let p = self.proj(sh, &v2, from);
+                if self.rng.bool() {
+                    format!("{{ let {v1} = {x}; let {v2} = {v1}; if {v1} == {v2} {{ {p} }} else {{ 0 - 900 }} }}")
+                } else {
+                    format!("{{ let {v1} = {x}; let {v2} = {v1}; if {v2} != {v1} {{ 0 - 900 }} else {{ {p} }} }}")
+                }
+            }
+            3 => {
+                self.tags.insert("copy:by-value-argument".into());
+                let h = self.helper(HelperKind::Unwrap, sh);
+                format!("{}({x})", self.refer(Item::Helper(h), from))
+            }
+            4 => {
+                self.tags.insert("copy:through-identity-function".into());
+                let h = self.helper(HelperKind::Identity, sh);
+                let f = self.refer(Item::Helper(h), from);
+                format!("{{ let {v1} = {f}({x}); {} }}", self.proj(sh, &v1, from))
+            }
+            5 => {
+                self.tags.insert("copy:stored-in-record".into());
+                let w = self.word();
+                let p = self.proj(sh, &format!("{v1}.keep"), from);
+                format!("{{ let {v1} = {{ keep: {x}, note: \"{w}\" }}; {p} }}")
+            }
+            6 => {
+                self.tags.insert("copy:list-element-get".into());
+                let v2 = self.var();
+                let p = self.proj(sh, &v2, from);
+                format!("{{ let {v1} = [{x}]; (match {v1}.get(0) {{ Some({v2}) => {p}, None => 0 - 901 }}) }}")
+            }
+            7 => {
+                self.tags.insert("copy:match-binding".into());
+                let p = self.proj(sh, &v1, from);
+                format!("(match Some({x}) {{ Some({v1}) => {p}, None => 0 - 902 }})")
+            }
+            8 => {
+                // a field read directly off the constant
+                self.tags.insert("copy:const-field".into());
+                self.proj(sh, x, from)
+            }
+            _ => {
+                self.tags.insert("copy:assign-over".into());
+                let v2 = self.var();
+                let old = {
+                    let save = self.no_helpers;
+                    self.no_helpers = true;
+                    let o = self.wrap(sh, "0", from);
+                    self.no_helpers = save;
+                    o
+                };
+                let p = self.proj(sh, &v2, from);
+                format!("{{ let {v1} = {x}; let {v2} = {old}; {v2} = {v1}; {p} }}")
+            }
+        }
+    }
+
+    /// a mention of node `to` (with the call if it is a function), as an i64
+    fn mention(&mut self, to: usize, depth: &str, from: usize) -> String {
+        let r = self.refer(Item::Node(to), from);
+        let n = &self.g.nodes[to];
+        let sh = n.sh.clone();
+        let x = if n.is_const {
+            r
+        } else if n.group.is_some() {
+            format!("{r}({depth})")
+        } else {
+            format!("{r}()")
+        };
+        let is_const = n.is_const;
+        self.unwrap(&sh, &x, from, is_const)
+    }
+
+    fn terms(&mut self, i: usize) -> Vec<String> {
+        let n = &self.g.nodes[i];
+        let from = n.module;
+        let mut terms = vec![if n.is_const { format!("init({i})") } else { "7".to_string() }];
+        for dep in n.deps.clone() {
+            let r = self.mention(dep.to, &dep.depth.to_string(), from);
+            terms.push(match dep.via {
+                Via::Direct | Via::Call => r,
+                Via::Block => format!("{{ let t = {r}; t }}"),
+                Via::IfBranch => format!("(if true {{ {r} }} else {{ 0 }})"),
+                Via::Method => format!("{{ let s = {r}.to_string(); let n: u64 = s.bytes().len(); n_to_i64(n) }}"),
+            });
+        }
+        if n.ctx_read {
+            terms.push(CTX_FORMS[self.g.ctx_form].1.to_string());
+        }
+        // some terms make a round trip through a local value of a random shape
+        for (k, t) in terms.iter_mut().enumerate() {
+            if k > 0 && self.rng.chance(1, 10) {
+                let sh = gen_shape(self.rng, &self.g.types, 1);
+                self.tags.insert(format!("local-shape:{}", sh.kind()));
+                let w = self.wrap(&sh, t, from);
+                *t = self.unwrap(&sh, &w, from, false);
+            }
+        }
+        terms
+    }
+
+    fn node_source(&mut self, i: usize) -> String {
+        self.cur = Item::Node(i);
+        let n = &self.g.nodes[i];
+        let (from, sh, name) = (n.module, n.sh.clone(), n.name.clone());
+        let terms = self.terms(i).join(" + ");
+        let ty = self.ty(&sh, from);
+        if n.is_const {
+            format!("const {name}: {ty} = {};\n", self.wrap(&sh, &terms, from))
+        } else if n.group.is_none() {
+            format!("fn {name}() -> {ty} {{\n    {}\n}}\n", self.wrap(&sh, &terms, from))
+        } else {
+            let mut step = vec!["acc".to_string(), "3".to_string()];
+            for m in n.calls.clone() {
+                step.push(self.mention(m, "d - 1", from));
+            }
+            let base = self.wrap(&sh, "acc", from);
+            let stepped = self.wrap(&sh, &step.join(" + "), from);
+            format!("fn {name}(d: i64) -> {ty} {{\n    let acc: i64 = {terms};\n    if d <= 0 {{\n        {base}\n    }} else {{\n        {stepped}\n    }}\n}}\n")
+        }
+    }
+
+    fn helper_source(&mut self, h: usize) -> String {
+        self.cur = Item::Helper(h);
+        self.no_helpers = true;
+        let Helper { kind, sh, name, module } = self.helpers[h].clone();
+        let ty = self.ty(&sh, module);
+        match kind {
+            HelperKind::Unwrap => format!("fn {name}(p: {ty}) -> i64 {{\n    {}\n}}\n", self.proj(&sh, "p", module)),
+            HelperKind::Identity => {
+                if self.rng.bool() {
+                    format!("fn {name}(p: {ty}) -> {ty} {{\n    p\n}}\n")
+                } else {
+                    format!("fn {name}(p: {ty}) -> {ty} {{\n    let q = p;\n    q\n}}\n")
+                }
+            }
+            HelperKind::Make => format!("fn {name}(n: i64) -> {ty} {{\n    {}\n}}\n", self.wrap(&sh, "n", module)),
+        }
+    }
+
+    fn type_source(&mut self, t: usize) -> String {
+        self.cur = Item::Type(t);
+        let TypeDecl { kind, name, module } = self.g.types[t].clone();
+        match kind {
+            TyKind::Rec => {
+                if self.rng.bool() {
+                    format!("record {name} {{ tag: String, n: i64 }}\n")
+                } else {
+                    format!("record {name} {{\n    n: i64,\n    tag: String,\n}}\n")
+                }
+            }
+            TyKind::Gen => format!("record {name}[T] {{ label: String, item: T }}\n"),
+            TyKind::En => format!("enum {name} {{ Txt(String), Lst(List[i64]), Num(i64), Nil }}\n"),
+            TyKind::GEn => format!("enum {name}[T] {{\n    One(T),\n    Two(String, T),\n    Zero,\n}}\n"),
+            TyKind::Outer(r) => {
+                let rn = self.refer(Item::Type(r), module);
+                format!("record {name} {{ inner: {rn}, rest: List[String] }}\n")
+            }
+        }
+    }
+}
+
+struct Case {
+    g: Graph,
+    /// (module name, source), pkg first
+    files: Vec<(String, String)>,
+    tags: Vec<String>,
+    use_ctx_rt: bool,
+}
+
+fn sources(g: &Graph, rng: &mut Rng, tags: &mut BTreeSet<String>) -> Vec<(String, String)> {
+    let mut p = Printer {
+        g,
+        rng,
+        used_names: g.used_names.clone(),
+        helpers: vec![],
+        helper_ix: BTreeMap::new(),
+        mentions: BTreeSet::new(),
+        type_uses: BTreeSet::new(),
+        cur: Item::Node(0),
+        nv: 0,
+        no_helpers: false,
+        plain_copies: false,
+        tags: BTreeSet::new(),
+    };
+    let mut text: BTreeMap<Item, String> = BTreeMap::new();
+    for i in 0..g.nodes.len() {
+        let s = p.node_source(i);
+        text.insert(Item::Node(i), s);
+    }
+    // getters for every constant and function, in pkg
+    let mut getters = String::new();
+    p.cur = Item::Node(usize::MAX);
+    for i in 0..g.nodes.len() {
+        let depth = g.nodes[i].getter_depth.to_string();
+        p.plain_copies = p.rng.chance(2, 3);
+        let e = p.mention(i, &depth, 0);
+        p.plain_copies = false;
+        getters.push_str(&format!("fn get{i}() -> i64 {{\n    {e}\n}}\n"));
+    }
+    for h in 0..p.helpers.len() {
+        let s = p.helper_source(h);
+        text.insert(Item::Helper(h), s);
+    }
+    // declarations of the types that were mentioned (a nested record needs its inner record)
+    let mut used: BTreeSet<usize> = p.type_uses.iter().map(|u| u.1).collect();
+    for t in used.clone() {
+        if let TyKind::Outer(r) = g.types[t].kind {
+            used.insert(r);
+        }
+    }
+    for &t in &used {
+        let s = p.type_source(t);
+        text.insert(Item::Type(t), s);
+    }
+    // textual order: the nodes as drawn, helpers and types at random places in between
+    let mut order: Vec<Item> = g.order.iter().map(|i| Item::Node(*i)).collect();
+    for h in 0..p.helpers.len() {
+        let pos = p.rng.usize(order.len() + 1);
+        order.insert(pos, Item::Helper(h));
+    }
+    let types_first = p.rng.chance(1, 4);
+    for (k, &t) in used.iter().enumerate() {
+        let pos = if types_first { k } else { p.rng.usize(order.len() + 1) };
+        order.insert(pos, Item::Type(t));
+    }
+    // is a type declared after an item of the same module that mentions it?
+    for &t in &used {
+        let tpos = order.iter().position(|x| *x == Item::Type(t)).unwrap();
+        let tm = g.types[t].module;
+        let mut after = false;
+        let mut foreign = false;
+        for (it, ut) in &p.type_uses {
+            if *ut != t || *it == Item::Node(usize::MAX) {
+                continue;
+            }
+            if p.item_module(*it) != tm {
+                foreign = true;
+            } else if order.iter().position(|x| x == it).is_some_and(|ip| ip < tpos) {
+                after = true;
+            }
+        }
+        p.tags.insert(format!("type-decl:{}", if after { "after-a-use" } else { "before-uses" }));
+        if foreign {
+            p.tags.insert("type-decl:used-from-other-module".into());
+        }
+    }
+    let mut files: Vec<(String, String)> = g.mod_names.iter().map(|m| (m.clone(), String::new())).collect();
+    if g.use_imports {
+        for (from, it) in p.mentions.clone() {
+            let m = p.item_module(it);
+            let name = p.item_name(it);
+            let path = if m == 0 { format!("pkg.{name}") } else { format!("pkg.{}.{name}", g.mod_names[m]) };
+            files[from].1.push_str(&format!("import {path};\n"));
+        }
+    }
+    for it in &order {
+        let m = p.item_module(*it);
+        files[m].1.push_str(&text[it]);
+    }
+    files[0].1.push_str(&getters);
+    tags.extend(p.tags.iter().cloned());
+    tags.insert(format!("helpers:{}", p.helpers.len().min(6)));
+    files
+}
+
+fn gen_case(rng: &mut Rng) -> Case {
+    let mut g = gen_graph(rng);
+    let mode = rng.below(10);
+    let with_ctx_runtime = rng.bool();
+    if mode < 2 {
+        g.defect = Some(inject_cycle(&mut g, rng));
+    } else if mode < 4 {
+        // a context read: directly in a constant, or at the end of a route through
+        // functions and recursive groups that a constant reaches
+        let consts: Vec<usize> = (0..g.nodes.len()).filter(|i| g.nodes[*i].is_const).collect();
+        let a = consts[rng.usize(consts.len())];
+        g.ctx_form = rng.usize(CTX_FORMS.len());
+        let form = CTX_FORMS[g.ctx_form].0;
+        match rng.below(6) {
+            0 => {
+                g.nodes[a].ctx_read = true;
+                g.defect = Some(format!("context:direct:{form}"));
+            }
+            5 if inject_into_reached(&mut g, rng, a, Payload::Context) => {
+                g.defect = Some(format!("context:through-reached-function:{form}"));
+            }
+            k => {
+                let (plain, hops) = inject_route(&mut g, rng, a, Payload::Context, k == 1);
+                g.defect = Some(if plain { format!("context:through-{hops}-function(s):{form}") } else { format!("context:through-group:{form}") });
+            }
+        }
+    }
+    if g.defect.is_none() && with_ctx_runtime && rng.bool() {
+        // a valid graph in which functions read the context variable: functions that no
+        // constant reaches (also members of recursive groups) may do that
+        let mut reached = BTreeSet::new();
+        for i in 0..g.nodes.len() {
+            if g.nodes[i].is_const {
+                let mut dummy = BTreeSet::new();
+                g.const_deps(i, &mut reached, &mut dummy);
+            }
+        }
+        let free: Vec<usize> = (0..g.nodes.len()).filter(|i| !g.nodes[*i].is_const && !reached.contains(i)).collect();
+        g.ctx_form = rng.usize(CTX_FORMS.len());
+        let mut any = false;
+        for f in free {
+            if rng.chance(1, 3) {
+                g.nodes[f].ctx_read = true;
+                any = true;
+                if g.nodes[f].group.is_some() {
+                    g.tags.insert("valid:context-read-in-unreached-group-member".into());
+                }
+            }
+        }
+        if any {
+            g.tags.insert("valid:context-read-in-unreached-function".into());
+        }
+    }
+    let mut tags: BTreeSet<String> = g.tags.clone();
+    let files = sources(&g, rng, &mut tags);
+    let mut tags: Vec<String> = tags.into_iter().collect();
+    tags.push(format!("modules:{}", g.n_modules()));
+    tags.push(format!("consts:{}", g.nodes.iter().filter(|n| n.is_const).count().min(12)));
+    tags.push(format!("imports:{}", g.use_imports));
+    for n in &g.nodes {
+        if n.is_const {
+            for d in &n.deps {
+                tags.push(format!("edge:{:?}", d.via));
+            }
+        }
+        tags.push(format!("shape:{}:{}", if n.is_const { "const" } else { "fn" }, n.sh.kind()));
+        if let Some(i) = n.sh.inner() {
+            tags.push(format!("shape-nest:{}({})", n.sh.kind(), i.kind()));
+        }
+        if n.group.is_some() && n.deps.iter().any(|d| g.nodes[d.to].is_const) {
+            tags.push("rec-group:member-reads-constant".into());
+        }
+        for d in &n.deps {
+            if g.nodes[d.to].group.is_some() {
+                tags.push(format!("rec-group:entered-from-{}@depth-{}", if n.is_const { "const" } else { "fn" }, d.depth));
+            }
+        }
+    }
+    if let Some(d) = &g.defect {
+        tags.push(format!("defect:{d}"));
+    }
+    let is_ctx_defect = g.defect.as_deref().is_some_and(|d| d.starts_with("context"));
+    // a context read needs a runtime that has the context variable, otherwise it
+    // is simply an unknown name (also an error, checked the same way)
+    let use_ctx_rt = is_ctx_defect || with_ctx_runtime;
+    tags.push(format!("runtime:{}", if use_ctx_rt { "with-context" } else { "plain" }));
+    Case { g, files, tags, use_ctx_rt }
 }
 
 pub struct ConstOrder {
@@ -336,6 +1314,8 @@ impl ConstOrder {
             library! {
                 fn n_to_i64(n: u64) -> i64 { n as i64 }
                 fn n_of(v: i64) -> u64 { v as u64 }
+                /// the decimal text of an i64, parsed back (0 if it is not one)
+                fn s_to_i64(s: RotoString) -> i64 { (*s).parse::<i64>().unwrap_or(0) }
             }
         };
         let mut rt = Runtime::from_lib(lib()).unwrap();
@@ -344,6 +1324,59 @@ impl ConstOrder {
         base.add(extra()).unwrap();
         let rt_ctx = base.with_context_type::<Cx>().unwrap();
         ConstOrder { rt, rt_ctx }
+    }
+
+    /// Compile a hand-written program (`--probe FILE [--plain 1]`; modules are separated by
+    /// lines `//@ <module>`, the first module is `pkg`) with the family's runtime, print
+    /// the evaluation log and the values of all `fn getN() -> i64` on stderr.
+    fn probe(&self, path: &str, plain: bool) -> CaseOut {
+        let mut out = CaseOut::default();
+        let text = std::fs::read_to_string(path).unwrap_or_default();
+        let mut files: Vec<(String, String)> = vec![("pkg".to_string(), String::new())];
+        for l in text.lines() {
+            if let Some(m) = l.strip_prefix("//@ ") {
+                if !(files.len() == 1 && files[0].1.trim().is_empty() && m.trim() == "pkg") {
+                    files.push((m.trim().to_string(), String::new()));
+                }
+            } else {
+                let f = files.last_mut().unwrap();
+                f.1.push_str(l);
+                f.1.push('\n');
+            }
+        }
+        take_inits();
+        macro_rules! go {
+            ($rt:expr, $call:expr) => {{
+                match catch(|| tree(&files).compile($rt)) {
+                    Err(p) => eprintln!("PANIC {p}\ninits {:?}", take_inits()),
+                    Ok(Err(rep)) => {
+                        let mut s = String::new();
+                        let _ = rep.write(&mut s, false);
+                        eprintln!("REJECTED\n{s}\ninits {:?}", take_inits());
+                    }
+                    Ok(Ok(mut pkg)) => {
+                        eprintln!("COMPILED inits {:?}", take_inits());
+                        for i in 0..64 {
+                            if let Ok(f) = pkg.get_function::<fn() -> i64>(&format!("get{i}")) {
+                                #[allow(clippy::redundant_closure_call)]
+                                let v: i64 = $call(&f);
+                                eprintln!("get{i}() = {v}   inits {:?}", take_inits());
+                            }
+                        }
+                    }
+                }
+            }};
+        }
+        if plain {
+            go!(&self.rt, |f: &roto::TypedFunc<roto::NoCtx, fn() -> i64>| f.call());
+        } else {
+            go!(&self.rt_ctx, |f: &roto::TypedFunc<roto::Ctx<Cx>, fn() -> i64>| {
+                let mut c = Cx { cv: 5 };
+                f.call(&mut c)
+            });
+        }
+        out.skipped = Some("probe".into());
+        out
     }
 }
 
@@ -363,177 +1396,182 @@ fn tree(files: &[(String, String)]) -> FileTree {
     FileTree::file_spec(FileSpec::Directory(root, children))
 }
 
+fn sample_of(c: &Case) -> J {
+    J::obj()
+        .set("defect", c.g.defect.clone())
+        .set("sig_hint", format!("constorder/{}", c.g.defect.clone().unwrap_or("valid-graph".into())))
+        .set("files", J::Arr(c.files.iter().map(|(n, s)| J::obj().set("module", n.as_str()).set("source", s.as_str())).collect()))
+}
+
 impl Family for ConstOrder {
     fn n_cases(&self, args: &Args) -> u64 {
         if args.thorough() { 120_000 } else { 8_000 }
     }
 
-    fn run(&mut self, _k: u64, rng: &mut Rng, _args: &Args) -> CaseOut {
-        let mut out = CaseOut::default();
-        let mut g = gen_graph(rng);
-        let mode = rng.below(10);
-        let mut ctx_read = None;
-        let with_ctx_runtime = rng.bool();
-        if mode < 2 {
-            g.defect = Some(inject_cycle(&mut g, rng));
-        } else if mode < 4 {
-            // a context read: directly in a constant, or in a function that a constant
-            // reaches (possibly through further functions)
-            let consts: Vec<usize> = (0..g.nodes.len()).filter(|i| matches!(g.nodes[*i], Node::Const { .. })).collect();
-            let a = consts[rng.usize(consts.len())];
-            g.ctx_form = rng.usize(CTX_FORMS.len());
-            if rng.bool() {
-                ctx_read = Some(a);
-                g.defect = Some(format!("context:direct:{}", CTX_FORMS[g.ctx_form].0));
-            } else {
-                let f1 = g.nodes.len();
-                let hops = 1 + rng.usize(2);
-                for h in 0..hops {
-                    let deps = if h + 1 < hops { vec![f1 + h + 1] } else { vec![] };
-                    g.nodes.push(Node::Func { deps });
-                    g.module.push(rng.usize(g.n_modules));
-                    let pos = rng.usize(g.order.len() + 1);
-                    g.order.insert(pos, f1 + h);
-                }
-                ctx_read = Some(f1 + hops - 1);
-                if let Node::Const { deps } = &mut g.nodes[a] {
-                    deps.push((f1, Via::Call));
-                }
-                g.defect = Some(format!("context:through-{hops}-function(s):{}", CTX_FORMS[g.ctx_form].0));
-            }
+    fn describe(&mut self, _k: u64, rng: &mut Rng, _args: &Args) -> Option<J> {
+        Some(sample_of(&gen_case(rng)))
+    }
+
+    fn run(&mut self, _k: u64, rng: &mut Rng, args: &Args) -> CaseOut {
+        if let Some(p) = args.opt("probe") {
+            return self.probe(p, args.flag("plain"));
         }
-        let files = g.sources(ctx_read);
+        let mut out = CaseOut::default();
+        let case = gen_case(rng);
+        let g = &case.g;
+        let files = &case.files;
         let all: String = files.iter().map(|(n, s)| format!("// {n}\n{s}")).collect();
         out.hash = hash_str(&all);
-        out.sample = Some(J::obj().set("defect", g.defect.clone()).set("files", J::Arr(files.iter().map(|(n, s)| J::obj().set("module", n.as_str()).set("source", s.as_str())).collect())));
-        out.tags.push(format!("modules:{}", g.n_modules));
-        out.tags.push(format!("consts:{}", g.nodes.iter().filter(|n| matches!(n, Node::Const { .. })).count().min(12)));
-        out.tags.push(format!("imports:{}", g.use_imports));
-        for n in &g.nodes {
-            if let Node::Const { deps } = n {
-                for (_, v) in deps {
-                    out.tags.push(format!("edge:{v:?}"));
-                }
-            }
-        }
-        if let Some(d) = &g.defect {
-            out.tags.push(format!("defect:{d}"));
-        }
+        out.sample = Some(sample_of(&case));
+        out.tags = case.tags.clone();
 
-        let is_ctx_defect = g.defect.as_deref().is_some_and(|d| d.starts_with("context"));
-        // a context read needs a runtime that has the context variable, otherwise it
-        // is simply an unknown name (also an error, checked the same way)
-        let use_ctx_rt = is_ctx_defect || with_ctx_runtime;
-        out.tags.push(format!("runtime:{}", if use_ctx_rt { "with-context" } else { "plain" }));
         take_inits();
         let n_nodes = g.nodes.len();
         // expected values
         let mut memo = BTreeMap::new();
-        let expected: Vec<i64> = if g.defect.is_none() { (0..n_nodes).map(|i| g.value(i, &mut memo)).collect() } else { vec![] };
+        let expected: Vec<i64> = if g.defect.is_none() { (0..n_nodes).map(|i| g.value(i, g.nodes[i].getter_depth, &mut memo)).collect() } else { vec![] };
 
         macro_rules! run_with {
             ($rt:expr, $call:expr) => {{
                 let rt = $rt;
-                let compiled = catch(|| tree(&files).compile(rt));
-                let during = take_inits();
-                out.evals += 1;
-                out.events += during.len() as u64;
-                match compiled {
-                    Err(p) => {
-                        out.viol(format!("{}@{}", panic_sig(&p), g.defect.clone().unwrap_or("valid-graph".into())), p, J::Null);
-                    }
-                    Ok(Err(rep)) => {
-                        if g.defect.is_none() {
-                            let mut s = String::new();
-                            let _ = rep.write(&mut s, false);
-                            out.viol("const:valid-graph-rejected", format!("a valid constant graph was rejected:\n{s}"), J::Null);
-                        } else {
-                            out.nontrivial = true;
-                            if !during.is_empty() {
-                                out.viol(
-                                    format!("const:evaluated-before-rejection@{}", g.defect.clone().unwrap()),
-                                    format!("the graph was rejected, but constants {during:?} had already been evaluated"),
-                                    J::Null,
-                                );
-                            }
-                        }
-                    }
-                    Ok(Ok(mut pkg)) => {
-                        if let Some(d) = &g.defect {
+                // `compile` is parse + type check + lowering + code generation, and only the
+                // first two can reject. A graph with an injected defect is therefore first only
+                // type checked: if that accepts it, code generation would evaluate the constant
+                // (a context read without a context, or an initialiser that needs itself), which
+                // is not attempted.
+                let mut attempt = true;
+                if let Some(d) = &g.defect {
+                    match catch(|| tree(files).parse().and_then(|p| p.typecheck(rt)).map(|_| ())) {
+                        Ok(Ok(())) => {
+                            attempt = false;
+                            out.evals += 1;
                             out.viol(
                                 format!("const:accepted@{d}"),
-                                format!("a constant graph with an injected defect ({d}) compiled; evaluated during compile: {during:?}"),
+                                format!("a constant graph with an injected defect ({d}) passed parsing and type checking, the only stages of compile that can reject; code generation would now evaluate the constants"),
                                 J::Null,
                             );
-                        } else {
-                            out.nontrivial = true;
-                            // exactly once each
-                            let consts: Vec<usize> = (0..n_nodes).filter(|i| matches!(g.nodes[*i], Node::Const { .. })).collect();
-                            for &c in &consts {
-                                let cnt = during.iter().filter(|x| **x as usize == c).count();
-                                if cnt != 1 {
+                        }
+                        Ok(Err(rep)) => {
+                            let mut s = String::new();
+                            let _ = rep.write(&mut s, false);
+                            let why = if s.contains("depends on a context variable") {
+                                "context"
+                            } else if s.contains("is recursively defined") {
+                                "recursion"
+                            } else {
+                                out.skipped = Some(format!("a graph with an injected defect was rejected for another reason:\n{s}"));
+                                "other"
+                            };
+                            out.tags.push(format!("rejected-for:{why}"));
+                        }
+                        Err(_) => {}
+                    }
+                }
+                if attempt {
+                    let compiled = catch(|| tree(files).compile(rt));
+                    let during = take_inits();
+                    out.evals += 1;
+                    out.events += during.len() as u64;
+                    match compiled {
+                        Err(p) => {
+                            out.viol(format!("{}@{}", panic_sig(&p), g.defect.clone().unwrap_or("valid-graph".into())), p, J::Null);
+                        }
+                        Ok(Err(rep)) => {
+                            if g.defect.is_none() {
+                                let mut s = String::new();
+                                let _ = rep.write(&mut s, false);
+                                out.viol("const:valid-graph-rejected", format!("a valid constant graph was rejected:\n{s}"), J::Null);
+                            } else {
+                                out.nontrivial = true;
+                                if !during.is_empty() {
                                     out.viol(
-                                        format!("const:evaluated-{}-times", if cnt == 0 { "zero".to_string() } else { "many".to_string() }),
-                                        format!("constant K{c} was evaluated {cnt} times during compilation (log {during:?})"),
+                                        format!("const:evaluated-before-rejection@{}", g.defect.clone().unwrap()),
+                                        format!("the graph was rejected, but constants {during:?} had already been evaluated"),
                                         J::Null,
                                     );
                                 }
                             }
-                            // dependency order
-                            let pos: BTreeMap<usize, usize> = during.iter().enumerate().map(|(p, k)| (*k as usize, p)).collect();
-                            for &c in &consts {
-                                let mut deps = BTreeSet::new();
-                                g.const_deps(c, &mut BTreeSet::new(), &mut deps);
-                                for d in deps {
-                                    out.events += 1;
-                                    if let (Some(pc), Some(pd)) = (pos.get(&c), pos.get(&d))
-                                        && pd > pc
-                                    {
+                        }
+                        Ok(Ok(mut pkg)) => {
+                            if let Some(d) = &g.defect {
+                                out.viol(
+                                    format!("const:accepted@{d}"),
+                                    format!("a constant graph with an injected defect ({d}) compiled; evaluated during compile: {during:?}"),
+                                    J::Null,
+                                );
+                            } else {
+                                out.nontrivial = true;
+                                // exactly once each
+                                let consts: Vec<usize> = (0..n_nodes).filter(|i| g.nodes[*i].is_const).collect();
+                                for &c in &consts {
+                                    let cnt = during.iter().filter(|x| **x as usize == c).count();
+                                    if cnt != 1 {
                                         out.viol(
-                                            "const:evaluated-before-dependency",
-                                            format!("K{c} was evaluated before K{d}, which it depends on (log {during:?})"),
+                                            format!("const:evaluated-{}-times", if cnt == 0 { "zero".to_string() } else { "many".to_string() }),
+                                            format!("constant {} (init({c})) was evaluated {cnt} times during compilation (log {during:?})", g.nodes[c].name),
                                             J::Null,
                                         );
                                     }
                                 }
-                            }
-                            // values, twice; nothing may be evaluated after compile
-                            for round in 0..2 {
-                                for i in 0..n_nodes {
-                                    let name = format!("get{i}");
-                                    match pkg.get_function::<fn() -> i64>(&name) {
-                                        Err(e) => {
-                                            out.viol("const:getter-missing", format!("{name}: {e}"), J::Null);
+                                // dependency order
+                                let pos: BTreeMap<usize, usize> = during.iter().enumerate().map(|(p, k)| (*k as usize, p)).collect();
+                                for &c in &consts {
+                                    let mut deps = BTreeSet::new();
+                                    g.const_deps(c, &mut BTreeSet::new(), &mut deps);
+                                    for d in deps {
+                                        out.events += 1;
+                                        if let (Some(pc), Some(pd)) = (pos.get(&c), pos.get(&d))
+                                            && pd > pc
+                                        {
+                                            out.viol(
+                                                "const:evaluated-before-dependency",
+                                                format!(
+                                                    "{} (init({c})) was evaluated before {} (init({d})), which it depends on (log {during:?})",
+                                                    g.nodes[c].name, g.nodes[d].name
+                                                ),
+                                                J::Null,
+                                            );
                                         }
-                                        Ok(f) => {
-                                            #[allow(clippy::redundant_closure_call)]
-                                            let v: i64 = $call(&f);
-                                            out.events += 1;
-                                            if v != expected[i] {
-                                                out.viol(
-                                                    format!("const:wrong-value@{}", if matches!(g.nodes[i], Node::Const { .. }) { "constant" } else { "function" }),
-                                                    format!("{} evaluates to {v}, expected {} (round {round})", g.name(i), expected[i]),
-                                                    J::Null,
-                                                );
+                                    }
+                                }
+                                // values, twice; nothing may be evaluated after compile
+                                for round in 0..2 {
+                                    for i in 0..n_nodes {
+                                        let name = format!("get{i}");
+                                        match pkg.get_function::<fn() -> i64>(&name) {
+                                            Err(e) => {
+                                                out.viol("const:getter-missing", format!("{name}: {e}"), J::Null);
+                                            }
+                                            Ok(f) => {
+                                                #[allow(clippy::redundant_closure_call)]
+                                                let v: i64 = $call(&f);
+                                                out.events += 1;
+                                                if v != expected[i] {
+                                                    out.viol(
+                                                        format!("const:wrong-value@{}", if g.nodes[i].is_const { "constant" } else { "function" }),
+                                                        format!("{} ({name}) evaluates to {v}, expected {} (round {round})", g.nodes[i].name, expected[i]),
+                                                        J::Null,
+                                                    );
+                                                }
                                             }
                                         }
                                     }
                                 }
-                            }
-                            let after = take_inits();
-                            if !after.is_empty() {
-                                out.viol(
-                                    "const:evaluated-after-compile",
-                                    format!("constants {after:?} were evaluated after compilation had returned"),
-                                    J::Null,
-                                );
+                                let after = take_inits();
+                                if !after.is_empty() {
+                                    out.viol(
+                                        "const:evaluated-after-compile",
+                                        format!("constants {after:?} were evaluated after compilation had returned"),
+                                        J::Null,
+                                    );
+                                }
                             }
                         }
                     }
                 }
             }};
         }
-        if use_ctx_rt {
+        if case.use_ctx_rt {
             run_with!(&self.rt_ctx, |f: &roto::TypedFunc<roto::Ctx<Cx>, fn() -> i64>| {
                 let mut c = Cx { cv: 5 };
                 f.call(&mut c)
